@@ -76,7 +76,8 @@ def gen_ctor(rng, kinds, r=None):
     return '%s:%d,%d,%d,%d,%d' % (op, r, a[0], a[1], a[2], a[3])
 
 
-SCALAR_OK = ('as', 'sw', 'cp', 'cm', 'ha', 'sh', 'ci', 'ty', 'lk', 'iq')
+COPYABLE = ('Int', 'Float', 'String', 'Pt', 'Array', 'List', 'Table', 'Tree')
+SCALAR_OK = ('as', 'sw', 'cp', 'cm', 'ha', 'sh', 'ty', 'iq')
 
 
 def aim(rng, kinds, op, reg, focus):
@@ -85,6 +86,10 @@ def aim(rng, kinds, op, reg, focus):
         return reg
     if op == 'de':
         want = ('Ref',)
+    elif op == 'lk':
+        want = ('Int',)
+    elif op == 'ci':
+        want = ('Int', 'Float', 'String', 'Pt')
     elif op in ('rv',):
         want = ('List',)
     elif op in ('so',):
@@ -126,6 +131,12 @@ def gen_wl(rng, nops):
             reg = aim(rng, kinds, op, reg, focus)
             if op in ('cc', 'as', 'sw'):
                 same = [q for q, kd in kinds.items() if kd == kinds.get(reg) and q != reg]
+                kd0 = kinds.get(reg, '')
+                if not same and kd0.split(':')[0] in COPYABLE and rng.random() < .7:
+                    y0 = rng.choice([q for q in range(NREG) if q != reg])
+                    toks.append('cp:%d,%d' % (reg, y0)); kinds[y0] = kd0
+                    toks.append('%s:%d,%d,%d' % (rng.choice(['pu', 'se', 'po', 'ap']), y0, rint(rng), rint(rng)))
+                    same = [y0]
                 y = rng.choice(same) if same and rng.random() < .85 else rng.randrange(NREG)
                 toks.append('%s:%d,%d' % (op, reg, y))
             elif op == 'cp':
@@ -141,6 +152,13 @@ def gen_wl(rng, nops):
             reg = aim(rng, kinds, op, reg, focus)
             if op in ('cm', 'zp'):
                 same = [q for q, kd in kinds.items() if (kd == kinds.get(reg) or (op == 'zp' and kd.split(':')[0] in ('Array', 'List', 'Table', 'Tree'))) and q != reg]
+                kd0 = kinds.get(reg, '')
+                if not same and kd0.split(':')[0] in COPYABLE and rng.random() < .7:
+                    y0 = rng.choice([q for q in range(NREG) if q != reg])
+                    toks.append('cp:%d,%d' % (reg, y0)); kinds[y0] = kd0
+                    if rng.random() < .6:
+                        toks.append('%s:%d,%d,%d' % (rng.choice(['pu', 'se', 'po', 'ap']), y0, rint(rng), rint(rng)))
+                    same = [y0]
                 y = rng.choice(same) if same and rng.random() < .85 else rng.randrange(NREG)
                 toks.append('%s:%d,%d' % (op, reg, y))
             else:
@@ -155,6 +173,9 @@ def gen_wl(rng, nops):
                 if op == 'dl':      # the harness clears the Refs to a deleted object; which ones is not tracked here
                     for q in [q for q, kd in kinds.items() if kd == 'Ref']:
                         pass
+            elif op == 'tf':
+                c = [q for q, kd in kinds.items() if kd.split(':')[0] in ('Array', 'List', 'Table', 'Tree')]
+                toks.append('tf:%d,%d' % (rng.choice(c) if c else reg, rint(rng)))
             else:
                 toks.append('%s:%d,%d,%d,%d' % (op, rint(rng), rint(rng), rint(rng), rint(rng)))
         if rng.random() < .1 and kinds:
@@ -372,9 +393,19 @@ def run(ctx):
                 outs[tag] = lines
         return outs
 
+    import collections
+    hist, effective = collections.Counter(), collections.Counter()
+
     def mk(tags, suffix):
         def run_wl(cases):
             outs = run_cfgs(cases, tags)
+            for line in outs[tags[0]]:
+                for o in line.split(' | '):
+                    if '=' in o:
+                        k, v = o.split('=', 1)
+                        hist[k] += 1
+                        if v not in ('-', '?', 'absent') and '!EXC' not in v:
+                            effective[k] += 1
             return [SEP.join('%s=%s' % (t, outs[t][i]) for t in tags) for i in range(len(cases))]
 
         def run_seq(cases):
@@ -466,6 +497,7 @@ def run(ctx):
             ctx.cov['exhaustive'] = ('all %d Array histories of length <= 2 (34 operations, indices -3..3, on [], [1], [1,2]) on all 24 builds; '
                                      'all %d of length <= 3 on [], [1,2] on the pairwise six; each also against model and specification' % (len(ex2), len(ex3)))
 
+    ctx.cov['operation_histogram'] = {k: '%d executed, %d with an effect' % (hist[k], effective[k]) for k in sorted(hist)}
     ctx.cov['configurations'] = all_tags
     ctx.cov['configurations_pairwise'] = pair_tags if quick else []
     ctx.cov['workload_programs'] = dw.ncases + dwp.ncases
